@@ -17,7 +17,7 @@ def entry_ok(arg, ctx, e) -> bool:
     return e is None
 
 
-@contract("core.circuitbuilder:GateMemoizer._make_gate_memo_key.<locals>.make_context_entry", props=["C07", "C14"])
+@contract("core.circuitbuilder:GateMemoizer._make_gate_memo_key.<locals>.make_context_entry", props=["C07", "C14", "C20"])
 class MakeContextEntry:
     def requires(arg, context):
         return isinstance(context, dict)
@@ -37,7 +37,7 @@ def hashed(obj, r) -> bool:
     return same(r, obj)
 
 
-@contract("core.circuitbuilder:GateMemoizer._make_hashable", props=["C07", "C14"])
+@contract("core.circuitbuilder:GateMemoizer._make_hashable", props=["C07", "C14", "C20"])
 class MakeHashable:
     """the key component for the argument text keeps every element of the arguments, in order, at every depth"""
 
@@ -50,7 +50,7 @@ class MakeHashable:
     raises_only = ()
 
 
-@contract("core.circuitbuilder:GateMemoizer._make_gate_memo_key", props=["C07", "C14"])
+@contract("core.circuitbuilder:GateMemoizer._make_gate_memo_key", props=["C07", "C14", "C20"])
 class MemoKey:
     """the key consists of the gate name, the argument text and, per argument, the context binding of every
     identifier mentioned in it at any nesting depth - so two uses share a memoized gate only if every identifier
